@@ -2479,6 +2479,39 @@ class StatsRegistryProfile(RegistryProfile):
         return super().method(recv, name, generics, args, em, env)
 
 
+def check_registry_free_fns():
+    """the public free functions of invalidation.rs must forward to the method of the same name of the global registry with
+    their parameters in order (they are what users and the macros call; the methods are what T20 is about)"""
+    rel = "cachelito-core/src/invalidation.rs"
+    problems = []
+    try:
+        fns = [(h, f) for (h, f) in parse_source(os.path.join(REPO, rel)) if h is None]
+    except Exception as e:
+        return [f"{rel}: " + (str(e) if isinstance(e, Untranslatable) else f"translator error {e!r}")]
+    byname = {f["name"]: f for (_, f) in fns}
+    for name in ("invalidate_by_tag", "invalidate_by_event", "invalidate_by_dependency", "invalidate_cache", "invalidate_with", "invalidate_all_with"):
+        f = byname.get(name)
+        if f is None:
+            problems.append(f"{rel}: the public function `{name}` is missing"); continue
+        try:
+            b = body_of(f)
+            e = b[2]
+            ok = (not b[1]) and e is not None and e[0] == "mcall" and e[2] == name and e[1][0] == "call" and \
+                e[1][1][0] == "path" and e[1][1][1][-2:] == ["InvalidationRegistry", "global"] and not e[1][2]
+            if ok:
+                args = []
+                for a in e[4]:
+                    while a[0] in ("ref", "paren", "deref"):
+                        a = a[1]
+                    args.append(a[1][0] if a[0] == "path" and len(a[1]) == 1 else None)
+                ok = args == [pn for (pn, _) in f["params"]]
+            if not ok:
+                problems.append(f"{rel}: the public function `{name}` no longer just forwards to `InvalidationRegistry::global().{name}(…)`")
+        except Exception as e2:
+            problems.append(f"{rel}: `{name}`: " + (str(e2) if isinstance(e2, Untranslatable) else f"translator error {e2!r}"))
+    return problems
+
+
 def collect_callbacks():
     """fills EXTRA_FNS; returns problems"""
     EXTRA_FNS.clear()
@@ -2489,6 +2522,7 @@ def collect_callbacks():
                 EXTRA_FNS.setdefault(module, []).append(callback_fn(rel, callee, fname, map_field))
             except Exception as e:
                 problems.append(f"{module}.{fname}: " + (str(e) if isinstance(e, Untranslatable) else f"translator error {e!r}"))
+    problems += check_registry_free_fns()
     try:
         EXTRA_FNS["StatsRegistry"] = stats_registry_fns()
         missing = [n for n in STATS_REGISTRY_FNS if n not in [f["name"] for (_, f) in EXTRA_FNS["StatsRegistry"]]]
